@@ -313,6 +313,13 @@ def _isinstance(I, args, kw):
             if r:
                 return True
             continue
+        if isinstance(t, E.ModRef):
+            # external classes: objects carry the dotted names of the classes they are instances of
+            if isinstance(x, E.Obj) and t.dotted in x.ghost.get('isa', ()):
+                return True
+            if t.dotted in ('numpy.ma.MaskedArray', 'numpy.ma.core.MaskedArray') and getattr(x, 'is_sarr', False) and x.mask is not None:
+                return True
+            continue
         if isinstance(t, E.Opaque):
             raise Unsupported('isinstance against opaque type %s' % t.origin)
     return False
@@ -836,3 +843,60 @@ def _bytes(I, args, kw):
     if isinstance(args[0], (bytes, str)):
         return bytes(args[0], *args[1:]) if isinstance(args[0], str) else args[0]
     raise Unsupported('bytes()')
+
+
+# ---- small external models used by pncgen -------------------------------------------------
+
+@model('numpy.isscalar')
+def _isscalar(I, args, kw):
+    x = args[0]
+    return isinstance(x, (int, float, Fraction, str, bool)) or (is_sym(x))
+
+
+@model('re.compile', trusted='re: regular expressions are evaluated by CPython on concrete strings')
+def _re_compile(I, args, kw):
+    import re
+    if not all(isinstance(a, (str, int)) for a in args):
+        raise Unsupported('re.compile of symbolic pattern')
+    return re.compile(*args)
+
+
+def _re_getattr(I, obj, name):
+    import re
+    if isinstance(obj, re.Pattern) and name in ('match', 'search', 'sub', 'findall', 'split'):
+        return _native_method(obj, name)
+    if isinstance(obj, re.Match) and name in ('groups', 'group'):
+        return _native_method(obj, name)
+    return None
+
+
+register_hook('value_getattr', _re_getattr)
+
+
+def native(fn):
+    """python callable usable as a value inside the interpreted program: fn(I, args, kwargs)"""
+    fn._pyvc_native = True
+    return fn
+
+
+def _isinstance_isa(I, x, nm):
+    return None
+
+
+def _obj_getitem(I, obj, idx):
+    E = _E()
+    if isinstance(obj, E.Obj) and '__getitem__' in obj.attrs:
+        return I.call(obj.attrs['__getitem__'], [idx], {})
+    return None
+
+
+def _obj_setitem(I, obj, idx, v):
+    E = _E()
+    if isinstance(obj, E.Obj) and '__setitem__' in obj.attrs:
+        I.call(obj.attrs['__setitem__'], [idx, v], {})
+        return True
+    return None
+
+
+register_hook('getitem', _obj_getitem)
+register_hook('setitem', _obj_setitem)
